@@ -35,11 +35,17 @@ MutVal(kind, mut, arg, shape, v) ==
       [] mut = "delete" /\ kind = "map" ->
             [k \in DOMAIN v \ {k \in DOMAIN arg : k \in DOMAIN v /\ v[k] = arg[k]} |-> v[k]]
 
+\* "mutate2": one mutate operation carrying two mutations of the same column:
+\* val, mut and shape are pairs
 NextRow(cur, op) ==
     CASE op.op = "insert" -> op.val
       [] op.op = "delete" -> NoRow
       [] op.op = "update" -> [cur EXCEPT ![op.col] = op.val]
       [] op.op = "mutate" -> [cur EXCEPT ![op.col] = MutVal(KindOfCol(op.col), op.mut, op.val, op.shape, cur[op.col])]
+      [] op.op = "mutate2" ->
+            LET k == KindOfCol(op.col)
+                v1 == MutVal(k, op.mut[1], op.val[1], op.shape[1], cur[op.col])
+            IN  [cur EXCEPT ![op.col] = MutVal(k, op.mut[2], op.val[2], op.shape[2], v1)]
 
 Enabled(cur, everPresent, op) ==
     IF op.op = "insert" THEN cur = NoRow /\ ~everPresent ELSE cur # NoRow
